@@ -28,6 +28,7 @@ var extractors = []extractor{
 	{"AuthFile", genAuthFile},
 	{"Locks", genLocks},
 	{"RefPat", genRefPat},
+	{"RefRe", genRefRe},
 	{"Unify", genUnify},
 	{"AuthFacts", genAuthFacts},
 	{"Debug", genDebug},
